@@ -23,6 +23,7 @@ TRUSTED_BASE = [
     "the declarations the proofs assume are re-checked by `rfl` on every run (SchemaTie/Load.lean)",
 ]
 SCHEMA_TIE = ('Load',)
+SQL_TIE = ('load',)
 ASSUMPTIONS = [
     "input values are finite doubles written with repr (round-trip exact); timestamps at whole seconds",
     "the water-level span holds at least two rainfall timestamps (otherwise load refuses)",
@@ -62,6 +63,15 @@ def one(ctx, tr, label):
         if not o["result"]:
             ctx.violation("impl-violation", "c10Holds", {"input": inp, "impl": t, "model": mf, "oracle": o})
             return
+    if io != "ok" and mf["outcome"] == "ok":
+        # files that meet every condition for loading (theorem load_ok_conditions) and are refused: nothing of what the
+        # property promises "after loading" holds for them
+        from . import cli as _cli
+        ctx.violation("impl-violation", "c10Holds", {"input": inp, "impl": list(res["load"]), "model": {"outcome": "ok"}, "oracle": {
+            "name": "c10Holds", "result": False,
+            "witness": {"why": "`spowtd load` fails on files that satisfy every condition for loading",
+                        "status": list(res["load"]), "how_the_files_were_written": _cli.LAST_DIALECT[0]}}})
+        return
     if diffs:
         ctx.corr_break(ob, {"input": inp, "differs_on": diffs, "impl": {"outcome": io, "tables": res["tables"]}, "model": mf})
 
